@@ -66,12 +66,14 @@ impl LockFile {
 	/// Acquires the lock, returning an error if the database is already in use
 	#[cfg(not(target_arch = "wasm32"))]
 	pub fn acquire(&mut self) -> Result<()> {
-		// Try to open the lock file with create flag
+		// Try to open the lock file with create flag. The file must not be truncated
+		// here: the lock is not held yet, and truncating would wipe the owner's PID
+		// when this attempt is refused. It is truncated below, under the lock.
 		let file = OpenOptions::new()
 			.read(true)
 			.write(true)
 			.create(true)
-			.truncate(true)
+			.truncate(false)
 			.open(&self.path)
 			.map_err(|e| Error::Io(Arc::new(e)))?;
 
